@@ -7,5 +7,8 @@ from .runtime_common import RUNTIME, RUNTIME_ASSUMPTIONS
 def run(tier):
     pr = PropertyRun('C08', tier)
     run_contracts_sel(pr, RUNTIME, tier, 'C08')
+    # the include arm of the statement loop is not proved: bounded native stand-in (includes run in the global scope, in order)
+    from .C17 import include_bounded
+    include_bounded(pr, 'C08')
     pr.assumptions += RUNTIME_ASSUMPTIONS
     return pr
